@@ -12,6 +12,14 @@ P = {
          "Every operation sequence up to the depth bound of the field register machines, executed on the real code; exact-state de-duplication (canonical bytes + canonicity flag); in every reached state: fully reduced, is_zero iff encoding 0, == iff encodings equal, encoding equals the model value; a watchdog turns a non-returning call into a violation.",
          "Bounded depth and finite menus (constants, bit indices, RNG scripts). Trusted: rustc, num-bigint, reference model.",
          "DESIGN.md 5 (C07)"),
+ "C12": (True, GRID + "; all ordered pairs over FQ2 = S x S with Montgomery-extreme components",
+         "Every ordered pair of the FQ2 alphabet through + - * == and commutativity, operator forms, associativity/distributivity triples, every unary observation, and agreement of the internal squaring with multiplication observed through G2::new(s^2 x, s^3 y, s) for every s; compared with pair arithmetic over BigUint (u^2 = -2); lazy-reduction carry classes u4 in {0,1} both required non-empty.",
+         "Holds on the enumerated alphabet only. Trusted: rustc, num-bigint, reference model.",
+         "DESIGN.md 5 (C12)"),
+ "C14": (True, GRID + "; squares, non-residues, both axes of Fq2 on both sides of q/2, every small x as a compressed G1 encoding",
+         "Fq::sqrt and Fq2::sqrt on a, a^2, 2a^2, -a^2 / x, x^2, nu*x^2 for every alphabet member and on every real and purely imaginary element of the axis alphabet (all four residuosity x half-plane classes required non-empty), decided by Euler's / the norm criterion with Some(s) squared back; G1::from_compressed on EVERY x below the bound.",
+         "Which root is returned is unconstrained. Trusted: rustc, num-bigint.",
+         "DESIGN.md 5 (C14)"),
  "C13": (True, GRID + "; every length 0..=70, every byte string of length <= 2, every short string over a 14-character alphabet, every bit index 0..=300",
          "All conversions (from_slice, TryFrom, interpret, from_str, from_hash, to_slice, to_big_endian, set_bit) on complete small scopes and boundary patterns at every length, compared with integer arithmetic (int(bytes) mod p, (int mod (r-1))+1, decimal value mod p).",
          "from_str(\"\") and setting bit indices >= 256 deliberately unconstrained. Trusted: rustc, num-bigint.",
